@@ -32,16 +32,25 @@ Definition baseline (T : table) (w : world) (s : step) (o : nat) : option obj :=
   match s with
   | SNew _ _ => None
   | SCall recv mn _ _ _ =>
-      if negb (Nat.eqb o (length (objs w))) then None else
-      match nth_error (objs w) recv with
+      match lookup_call T w recv mn with
       | None => None
-      | Some ob =>
-          match find_class T (ocls ob) with
-          | None => None
-          | Some c => match find_meth (cmeths c) mn with
-                      | None => None
-                      | Some m => if copies_now w recv m then Some ob else None
-                      end
+      | Some (c, m) =>
+          let n0 := length (objs w) in
+          let cp1 := copies_now w recv m in
+          if cp1 && Nat.eqb o n0 then nth_error (objs w) recv else
+          match mret m with
+          | RCall a m2 =>
+              (* the copy made by the delegated @builder call: compared with the object behind self.a *)
+              if negb (Nat.eqb o (if cp1 then S n0 else n0)) then None else
+              match deref w recv a with
+              | None => None
+              | Some q =>
+                  match lookup_call T w q m2 with
+                  | None => None
+                  | Some (_, k2) => if copies_now w q k2 then nth_error (objs w) q else None
+                  end
+              end
+          | _ => None
           end
       end
   end.
